@@ -173,6 +173,30 @@ func main() {
 				for i := depth - 1; i >= 0; i-- {
 					finalNow := a.Finalized()
 					b := blocks[i]
+					if b.Header.Height > finalNow && r.Intn(6) == 0 {
+						// a removal attempt that fails in the application (transient error) must leave
+						// everything as it was, so that the retry below restores the previous state
+						pre := take(a)
+						a.ABI.FailAt = "Revert"
+						ferr := a.DeleteTip(saveTemp)
+						fired := a.ABI.FailAt == ""
+						a.ABI.FailAt = ""
+						if fired && ferr != nil {
+							k.Count("delete_attempts_failed_in_application", 1)
+							post := take(a)
+							if d := node.Diff(pre.dump, post.dump, nil); len(d) > 0 || !bytes.Equal(pre.tipID, post.tipID) || pre.app != post.app {
+								k.Violation("delete:failed-attempt-changed-state:prefix-"+func() string {
+									if len(d) > 0 {
+										return d[0].Key[:2]
+									}
+									return "none"
+								}(), "a removal that failed in the application (Revert error) changed the node state; the block can no longer be removed cleanly", map[string]any{"db_diff": d, "height": b.Header.Height, "error": ferr.Error()})
+							}
+						} else if ferr == nil {
+							k.Inconclusive("scripted-revert-failure-did-not-stop-the-removal")
+							return
+						}
+					}
 					err := a.DeleteTip(saveTemp)
 					if b.Header.Height <= finalNow {
 						if err == nil {
@@ -293,6 +317,21 @@ func main() {
 						return
 					}
 					k.Count("sibling_reorgs", 1)
+					if saveTemp {
+						// the removed blocks stay retrievable while a sibling takes their place (a sync
+						// that fails later restores them from there)
+						tb, err := a.Chain.DataAccess().GetTempBlocks()
+						have := map[string]bool{}
+						for _, b := range tb {
+							have[string(b.Header.ID)] = true
+						}
+						for _, b := range blocks[kept:] {
+							if err != nil || !have[string(b.Header.ID)] {
+								k.Violation("temp:lost-when-sibling-applied", "a block removed with saveTemp is no longer among the temp blocks after a sibling was applied at its height", map[string]any{"height": b.Header.Height, "sibling_height": sib.Header.Height})
+								break
+							}
+						}
+					}
 				}
 				// twin comparison (temp keys ignored, finalized marker >=, pruned below finalized)
 				da, dt := take(a), take(t)
